@@ -74,4 +74,30 @@ theorem crc_two_bits_ne (k g m : Nat) (a1 a2 : Fin 8) (hg : g < 2 ^ 28) :
     unfold ordN; omega
   exact no_small_period _ hpos hlt hcancel
 
+/-- the 32 single-bit words are the monomials x^(31-k) -/
+theorem basis_as_iterate : ∀ k : Fin 32, basis k.val = step1^[31 - k.val] e0 := by
+  decide +kernel
+
+/-- **one bit of the stored checksum word and one bit of the data**: the checksum of the single-bit data pattern is never
+a single-bit word (for fewer than 2^28 bytes after the flipped data bit) -/
+theorem crc_one_bit_ne_basis (pre m : Nat) (a : Fin 8) (k : Fin 32) (hm : m < 2 ^ 28) :
+    crc 0 (zeros pre ++ [UInt8.ofNat (2 ^ a.val)] ++ zeros m) ≠ basis k.val := by
+  rw [crc_append, crc_append, crc_zeros_zero]
+  intro h
+  simp only [crc, List.foldl_cons, List.foldl_nil] at h
+  have h1 : crcByte 0 (UInt8.ofNat (2 ^ a.val)) = step1^[8] (W (UInt8.ofNat (2 ^ a.val))) := by
+    unfold crcByte W; simp [step8_eq_iterate]
+  rw [h1] at h
+  have hz := crc_zeros_iterate (step1^[8] (W (UInt8.ofNat (2 ^ a.val)))) m
+  simp only [crc] at hz
+  rw [hz, single_bit_byte a, basis_as_iterate k, ← Function.iterate_add_apply, ← Function.iterate_add_apply] at h
+  have ha := a.isLt
+  have hk := k.isLt
+  have hcancel := iterate_cancel (8 * m + 8 + (31 - a.val)) (31 - k.val) (by omega) e0 h
+  have hpos : 0 < 8 * m + 8 + (31 - a.val) - (31 - k.val) := by omega
+  have hlt : 8 * m + 8 + (31 - a.val) - (31 - k.val) < ordN := by
+    have : m < 268435456 := by simpa using hm
+    unfold ordN; omega
+  exact no_small_period _ hpos hlt hcancel
+
 end Sb.Proofs
